@@ -98,6 +98,18 @@ impl Recoverer {
     /// `m`: model with every *completed* call applied. `inflight`: calls that were
     /// started but had not returned at the crash.
     pub fn check(&mut self, lower: &[u8], m: &Model, inflight: &[Op], out: &mut Vec<Violation>) {
+        let mut v = vec![];
+        if let Err(msg) = crate::common::catch(|| self.check_raw(lower, m, inflight, &mut v)) {
+            v.push(Violation::new(
+                "C05",
+                format!("panic while examining the recovered allocator: {}", crate::common::panic_signature(&msg)),
+                msg,
+            ));
+        }
+        out.extend(v);
+    }
+
+    fn check_raw(&mut self, lower: &[u8], m: &Model, inflight: &[Op], out: &mut Vec<Violation>) {
         self.points += 1;
         let mut hh = std::collections::hash_map::DefaultHasher::new();
         inflight.hash(&mut hh);
